@@ -84,8 +84,9 @@ MAX_ROUNDS = 60              # re-batching rounds after derailed scripts, per ba
 
 
 def _su():
+    # every evaluation is the second call with the same arguments (see inputs.second_call)
     from boltons import strutils
-    return strutils
+    return inputs.SecondCallModule(strutils)
 
 
 # ------------------------------------------------------------------------------------------------------------------
